@@ -116,7 +116,7 @@ theorem C06_conflicting_redeclare_refused (nst : Nat) (dirs : List DirEnt) (h : 
   have hinv := history_inv nst dirs h
   have hn : (runHistory (World.init nst dirs) h).nst = nst := history_nst _ h
   generalize runHistory (World.init nst dirs) h = w at hinv hn hex hold
-  obtain ⟨m, hv, _, hout, _⟩ := step_run_sub hinv u (.declare a)
+  obtain ⟨m, held, hv, hfb, _, hout, _⟩ := step_run_sub hinv u (.declare a)
   rw [hout]
   simp only [run]
   have hde : (⟨w.db, m, w.dirs, [], w.extras⟩ : Proc).dirExists d = true := by
@@ -126,7 +126,8 @@ theorem C06_conflicting_redeclare_refused (nst : Nat) (dirs : List DirEnt) (h : 
     exact ⟨e, he, hk.1⟩
   have hres := resolveDeclare_explicit (nst := w.nst) (p := ⟨w.db, m, w.dirs, [], w.extras⟩) hdir htag htn hstack hde hex
     (hn ▸ hroot)
-  have hag : AgreeOnN m w.db d.root a.self a.name := hv d.root (hn ▸ hroot) a.name
+  have hag : AgreeOnN m w.db d.root a.self a.name :=
+    hv d.root (hn ▸ hroot) a.self (hfb d.root (hn ▸ hroot) a.self (by simp [fallbacks, Cmd.self])) a.name
   have hmem : (⟨w.db, m, w.dirs, [], w.extras⟩ : Proc).mem = m := rfl
   have hfind : m.findDecl d.root a.name a.ver a.self = some o := by
     rw [findDecl_agree hag hinv.dbinv.ku]; exact hold
@@ -180,7 +181,7 @@ theorem C06_first_version_current (nst : Nat) (dirs : List DirEnt) (h : List WCm
         (step (runHistory (World.init nst dirs) h) (.run u (.declare a) none)).db.hasDecl s a.name a.ver a.self = true := by
   have hinv := history_inv nst dirs h
   generalize runHistory (World.init nst dirs) h = w at hinv hok hfirst
-  obtain ⟨m, _, hsub, hout, hdb⟩ := step_run_sub hinv u (.declare a)
+  obtain ⟨m, _, _, _, hsub, hout, hdb⟩ := step_run_sub hinv u (.declare a)
   rw [hout] at hok
   unfold step
   rw [hdb]
